@@ -24,8 +24,8 @@ Starts   == SelectSeq([i \in 1..N |-> i], LAMBDA i : Rec[i].ev = "New")
 NRuns    == Len(Starts)
 RunLen(k) == (IF k < NRuns THEN Starts[k + 1] ELSE N + 1) - Starts[k]
 
-Strip(r)      == [f \in (DOMAIN r) \ {"run"} |-> r[f]]
-StripFlags(r) == [f \in (DOMAIN r) \ {"run", "flags"} |-> r[f]]
+Strip(r)      == [f \in (DOMAIN r) \ {"run", "pairpos"} |-> r[f]]
+StripFlags(r) == [f \in (DOMAIN r) \ {"run", "flags", "pairpos"} |-> r[f]]
 
 VARIABLES pr, off, bad, done
 vars == <<pr, off, bad, done>>
@@ -48,10 +48,17 @@ EventBad(mode, a, b) ==
   ELSE IF a.ev = "Host" /\ a.op = "flag" THEN {}
   ELSE (IF Strip(a) = Strip(b) THEN {} ELSE {"host-differs"})
 
-Init == /\ pr \in { k \in 1..NRuns : k % 2 = 1 /\ k + 1 <= NRuns }
+\* "segments" (C13): run A executes the program as any number of paused and resumed
+\* run-style calls, run B as one unbroken run; the final states must agree.
+LastOf(k)  == Rec[Starts[k] + RunLen(k) - 1]
+FinalBad(a, b) == IF a.ev = "End" /\ b.ev = "End" /\ a.final = b.final THEN {} ELSE {"final-differs"}
+
+Init == /\ pr \in { k \in 1..NRuns : k + 1 <= NRuns /\ Rec[Starts[k]].pairpos = "A" }
         /\ off = 0
-        /\ bad = HeaderBad(A(0), Bv(0)) \cup (IF RunLen(pr) = RunLen(pr + 1) THEN {} ELSE {"length"})
-        /\ done = FALSE
+        /\ bad = IF A(0).pair = "segments"
+                 THEN (IF Strip(A(0)) = Strip(Bv(0)) THEN {} ELSE {"header"}) \cup FinalBad(LastOf(pr), LastOf(pr + 1))
+                 ELSE HeaderBad(A(0), Bv(0)) \cup (IF RunLen(pr) = RunLen(pr + 1) THEN {} ELSE {"length"})
+        /\ done = (A(0).pair = "segments")
 
 \* after a step that strict mode rejected the two machines legitimately differ
 Next == /\ bad = {} /\ ~done
